@@ -29,15 +29,17 @@ func New() *Iterator {
 
 // Finish is called be the storage to signal the end of the query results.
 func (it *Iterator) Finish(err error) {
+	// Store the error before closing the channels, so that a consumer that
+	// has seen the end of the stream always gets the error from Err().
+	it.errLock.Lock()
+	it.err = err
+	it.errLock.Unlock()
+	verifPoint("iterator.finish")
+
 	close(it.Next)
 	if it.doneClosed.SetToIf(false, true) {
 		close(it.Done)
 	}
-	verifPoint("iterator.finish")
-
-	it.errLock.Lock()
-	defer it.errLock.Unlock()
-	it.err = err
 }
 
 // Cancel is called by the iteration consumer to cancel the running query.
